@@ -128,6 +128,10 @@ pub fn build(prog: &Program) -> Result<Built, String> {
                     let r = b.select(h(0), h(1), h(2));
                     hid.push(r)
                 }
+                "bits2" => {
+                    let bits = b.decompose_to_bits::<BabyBear>(h(0), 2).map_err(|e| format!("decompose_to_bits: {e:?}"))?;
+                    hid.extend(bits);
+                }
                 "connect" => b.connect(h(0), h(1)),
                 "azero" => b.assert_zero(h(0)),
                 "abool" => b.assert_bool(h(0)),
@@ -226,6 +230,17 @@ fn ext_residuals(prog: &Program, u: &[P3<F>], bits: &[P3<F>]) -> Vec<P3<F>> {
                 tail.push(a(0).sub(bits[bi]));
                 bi += 1;
             }
+            "bits2" => {
+                // the two bits are unknowns aimed at chosen bit values; x must equal b0 + 2*b1
+                let (b0, b1) = (u[qi], u[qi + 1]);
+                qi += 2;
+                tail.push(b0.sub(bits[bi]));
+                tail.push(b1.sub(bits[bi + 1]));
+                bi += 2;
+                tail.push(a(0).sub(b0.add(b1.add(b1))));
+                h.push(b0);
+                h.push(b1);
+            }
             _ => {}
         }
     }
@@ -241,8 +256,9 @@ fn ext_residuals(prog: &Program, u: &[P3<F>], bits: &[P3<F>]) -> Vec<P3<F>> {
 pub fn find_satisfying(prog: &Program, rng: &mut StdRng, generic: bool) -> Option<Vec<P3<F>>> {
     let n = prog.npub + prog.npriv;
     let zero = P3::<F>::zero();
-    let ndiv = prog.calls.iter().filter(|c| c.op == "div").count();
-    let nb = prog.calls.iter().filter(|c| c.op == "abool").count();
+    let nbits = prog.calls.iter().filter(|c| c.op == "bits2").count();
+    let ndiv = prog.calls.iter().filter(|c| c.op == "div").count() + 2 * nbits;
+    let nb = prog.calls.iter().filter(|c| c.op == "abool").count() + 2 * nbits;
     let nu = n + ndiv;
     let verified = |x: &[P3<F>]| residuals(prog, x).is_some_and(|r| r.iter().all(|v| *v == zero));
     for attempt in 0..8 {
@@ -449,6 +465,15 @@ fn source_relations(prog: &Program, built: &Built, s: &[F], pubs: &[F]) -> Resul
                     _ => unreachable!(),
                 };
                 out.push(SrcRel { what, residual: res, grad });
+            }
+            "bits2" => {
+                let (b0, b1) = (w(nh)?, w(nh + 1)?);
+                nh += 2;
+                for (b, name) in [(b0, "bit 0"), (b1, "bit 1")] {
+                    out.push(SrcRel { what: format!("{what}: {name} boolean"), residual: s[b] * (s[b] - F::ONE), grad: vec![(b, s[b].double() - F::ONE)] });
+                }
+                out.push(SrcRel { what: format!("{what}: x = b0 + 2 b1"), residual: v(0)? - s[b0] - s[b1].double(),
+                    grad: vec![(a(0)?, F::ONE), (b0, -F::ONE), (b1, -F::TWO)] });
             }
             "connect" => out.push(SrcRel { what, residual: v(0)? - v(1)?, grad: vec![(a(0)?, F::ONE), (a(1)?, -F::ONE)] }),
             "azero" => out.push(SrcRel { what, residual: v(0)?, grad: vec![(a(0)?, F::ONE)] }),
@@ -1074,6 +1099,9 @@ pub fn model_drift(rec: &Rec, built: &Built, st: &mut Stats) {
                 out.0 as i64,
                 intermediate_out.map(|c| c.0 as i64).unwrap_or(-1),
             ),
+            Op::Hint { inputs, outputs, .. } if inputs.len() == 1 && outputs.len() == 2 => {
+                ("Hint".to_string(), inputs[0].0 as i64, -1, outputs[1].0 as i64, outputs[0].0 as i64, -1)
+            }
             _ => ("Other".to_string(), -1, -1, -1, -1, -1),
         })
         .collect();
@@ -1086,7 +1114,8 @@ pub fn model_drift(rec: &Rec, built: &Built, st: &mut Stats) {
         if matches!(c.op.as_str(), "connect" | "azero" | "abool") {
             continue;
         }
-        folds |= c.args.iter().all(|&a| is_const(a));
+        // decompose_to_bits defines the constants 2^j itself (2 = -1 in GF(3))
+        folds |= c.args.iter().all(|&a| is_const(a)) || c.op == "bits2";
     }
     let ids: Vec<i64> = built.hid.iter().map(|e| e.0 as i64).collect();
     if real != model || ids != rec.ids {
